@@ -9,6 +9,8 @@ from harness import xser, xbuild, defgen, xmlgen, xmlutil, xmlops
 from harness.xser import S, optS
 from harness.xbuild import uS
 
+from harness.props import c09
+
 ID = "C16"
 REQUIRED_THEOREMS = ["elems_strip", "findAll_strip", "findFirst_strip", "matches_setNs", "findAll_spelling",
                      "history_independent", "after_any_sequence"]
@@ -60,10 +62,10 @@ def malformed(rng, xml, sp):
 
 
 def generate(rng, tier):
-    ndefs = 10 if tier == "quick" else 80
+    ndefs = 10 if tier == "quick" else 250
     docs = []
     for _ in range(ndefs):
-        d = defgen.Defn(rng, max_depth=rng.choice([1, 2, 3]), fanout=3)
+        d = defgen.Defn(rng, max_depth=rng.choice([1, 2, 3]), fanout=3, adj_pool=c09.ADJ_POOL, rich=True)
         docs.append(d.sexpr())
     for dsx in docs:
         import random
